@@ -23,11 +23,11 @@ Definition ps_rem {X} (without : list X -> list X) (v : option (list X)) : optio
 
 Definition ps_abs_call (cl : ps_call) (A : ps_abs) : ps_abs :=
   match cl with
-  | CObsAdded a => mkAbs (ab_dyn A) (ps_add (ps_obs_without (ob_key a)) a (ab_obs A)) (ab_cnt A)
+  | CObsAdded a => mkAbs (ab_dyn A) (ps_add (ps_obs_without (pso_key a)) a (ab_obs A)) (ab_cnt A)
   | CObsDeleted k => mkAbs (ab_dyn A) (ps_rem (ps_obs_without k) (ab_obs A)) (ab_cnt A)
   | CCntTrack n v => mkAbs (ab_dyn A) (ab_obs A) (ps_add (ps_cnt_without n) (n, v) (ab_cnt A))
   | CCntDeleted n => mkAbs (ab_dyn A) (ab_obs A) (ps_rem (ps_cnt_without n) (ab_cnt A))
-  | CDynAdded a => mkAbs (ps_add (ps_dyn_without (dy_name a)) a (ab_dyn A)) (ab_obs A) (ab_cnt A)
+  | CDynAdded a => mkAbs (ps_add (ps_dyn_without (psd_name a)) a (ab_dyn A)) (ab_obs A) (ab_cnt A)
   | CDynDeleted n => mkAbs (ps_rem (ps_dyn_without n) (ab_dyn A)) (ab_obs A) (ab_cnt A)
   end.
 
@@ -101,13 +101,13 @@ Section Hist.
         * apply Forall_app. split; [apply ps_filter_wf; exact Ho|constructor; [exact Hw|constructor]].
         * constructor; [exact Hw|constructor].
       + destruct o as [l|]; cbn [ps_add ps_optlen].
-        * rewrite app_length. cbn [length]. pose proof (ps_filter_len _ (fun r => negb (ps_beq (ob_key r) (ob_key a))) l).
+        * rewrite app_length. cbn [length]. pose proof (ps_filter_len _ (fun r => negb (ps_beq (pso_key r) (pso_key a))) l).
           unfold ps_obs_without. lia.
         * cbn [length]. lia.
     - split; [split; [exact Hd|split; [|exact Hc]]|].
       + destruct o as [l|]; cbn [ps_rem ps_optall] in *; [apply ps_filter_wf; exact Ho|exact I].
       + destruct o as [l|]; cbn [ps_rem ps_optlen]; [|lia].
-        pose proof (ps_filter_len _ (fun r => negb (ps_beq (ob_key r) key)) l). unfold ps_obs_without. lia.
+        pose proof (ps_filter_len _ (fun r => negb (ps_beq (pso_key r) key)) l). unfold ps_obs_without. lia.
     - split; [split; [exact Hd|split; [exact Ho|]]|].
       + destruct c as [l|]; cbn [ps_add ps_optall] in *.
         * apply Forall_app. split; [apply ps_filter_wf; exact Hc|constructor; [exact Hw|constructor]].
@@ -128,13 +128,13 @@ Section Hist.
         * constructor; [exact Hw|constructor].
       + destruct d as [l|]; cbn [ps_add ps_optlen].
         * rewrite app_length. cbn [length].
-          pose proof (ps_filter_len _ (fun r => negb (ps_beq (dy_name a) (dy_name r))) l).
+          pose proof (ps_filter_len _ (fun r => negb (ps_beq (psd_name a) (psd_name r))) l).
           unfold ps_dyn_without. lia.
         * cbn [length]. lia.
     - split; [split; [|split; [exact Ho|exact Hc]]|].
       + destruct d as [l|]; cbn [ps_rem ps_optall] in *; [apply ps_filter_wf; exact Hd|exact I].
       + destruct d as [l|]; cbn [ps_rem ps_optlen]; [|lia].
-        pose proof (ps_filter_len _ (fun r => negb (ps_beq name (dy_name r))) l). unfold ps_dyn_without. lia.
+        pose proof (ps_filter_len _ (fun r => negb (ps_beq name (psd_name r))) l). unfold ps_dyn_without. lia.
   Qed.
 
   Lemma ps_holds_of : forall X (file : list X -> bytes) v (o : option (list X)),
